@@ -432,6 +432,82 @@ def reader_writer_race(chk: Check, sc: Scratch, rounds: int, per_round: int) -> 
         site.close()
 
 
+def real_process_race(chk: Check, sc: Scratch, nreq: int) -> None:
+    """Readers racing writers in the real forking server: many clients ask for one directory while its cache file
+    keeps being emptied, cut and removed (each miss rewrites it).  A reader must survive whatever it observes -- a
+    dead worker shows as an empty or cut reply."""
+    import random
+    from concurrent.futures import ThreadPoolExecutor
+    from vf import spdriver
+    root = sc.sub("rp-root")
+    gen_dir(chk.subrng("rp"), 9).materialize(root)
+    sp = spdriver.ServerProcess(conf_overrides={("handlers.dir.DirHandler", "cachetime"): "1000"}, root=root,
+                                servertype="ForkingTCPServer", tls=False, workdir=sc.sub("rp-wd"), name="c11")
+    sp.start()
+    try:
+        if not sp.wait_ready(30):
+            chk.note_inconclusive("C11 real server did not become ready")
+            return
+        cpath = os.path.join(os.fsencode(root), CACHE)
+        ref = {}
+        for view in ("gopher", "http", "gopherp+"):
+            req, _ = reqs.render(view, b"/")
+            try:
+                os.unlink(cpath)
+            except OSError:
+                pass
+            ref[view] = validate.normalize_ts(sp.request(req))
+        stop = threading.Event()
+
+        def buster():
+            r = random.Random(11)
+            while not stop.is_set():
+                try:
+                    k = r.random()
+                    if k < 0.4:
+                        open(cpath, "wb").close()                      # what a writer's open() does first
+                    elif k < 0.7:
+                        size = os.path.getsize(cpath)
+                        os.truncate(cpath, r.choice([0, 1, size // 2, 4096, max(0, size - 1)]))
+                    else:
+                        os.unlink(cpath)
+                except OSError:
+                    pass
+                time.sleep(r.choice([0.0005, 0.002, 0.004]))
+
+        bt = threading.Thread(target=buster, daemon=True)
+        bt.start()
+
+        def one(i):
+            view = ("gopher", "http", "gopherp+")[i % 3]
+            req, _ = reqs.render(view, b"/")
+            try:
+                return view, sp.request(req, timeout=30), None
+            except OSError as e:
+                return view, None, type(e).__name__
+
+        with ThreadPoolExecutor(max_workers=12) as ex:
+            results = list(ex.map(one, range(nreq)))
+        stop.set()
+        bt.join()
+        errors = 0
+        for view, data, err in results:
+            chk.count("real_server_racing_reads")
+            if err is not None:
+                errors += 1
+                continue
+            if validate.normalize_ts(data) != ref[view]:
+                chk.witness("C11/real-server-reader-racing-writer:%s" % ("empty-reply" if not data else "wrong-listing"),
+                            {"view": view, "reply": data[:200], "server_stderr": sp.stderr_text()[-300:]})
+                return
+        if errors > nreq // 10:
+            chk.note_inconclusive("%d of %d racing requests failed on the client side" % (errors, nreq))
+        chk.case(("real-server-race", nreq), {"requests": nreq, "client_errors": errors})
+    finally:
+        sp.stop()
+        sp.cleanup()
+
+
 def main() -> int:
     chk = Check("C11", "fault_enumeration")
     quick = chk.tier == "quick"
@@ -450,6 +526,8 @@ def main() -> int:
             hl = [("umn", None), ("plain", driver.HANDLERS_PLAINDIR)][shard % 2]
             writer_crash(chk, sc, 19 if quick else 1, hl[1], hl[0], n_entries=6 + (shard if not quick else 0))
             reader_writer_race(chk, sc, rounds=8 if quick else 20, per_round=150)
+            if quick or shard < 4:
+                real_process_race(chk, sc, 600 if quick else 3000)
     return chk.finish(
         rule="case = (cache file, cut position): the file the server wrote is replaced by its prefix of length k "
              "(every k for the smallest directories, a stride plus boundaries for larger ones; all k in the thorough "
